@@ -368,6 +368,12 @@ fn add_transport(b: PacketBuilderStep<IpHeaders>, t: &str, want: &mut Want) -> F
                     want.icmp4 = Some(h.icmp_type.clone());
                     Fin::I4(b.icmpv4(h.icmp_type))
                 }
+                "du" | "rd" | "te" | "pp" | "tq" | "tp" => {
+                    // typed kinds, constructed field by field (no decoder involved)
+                    let ty = icmp4_typed(&k);
+                    want.icmp4 = Some(ty.clone());
+                    Fin::I4(b.icmpv4(ty))
+                }
                 _ => panic!("icmp4 token"),
             }
         }
@@ -399,10 +405,139 @@ fn add_transport(b: PacketBuilderStep<IpHeaders>, t: &str, want: &mut Want) -> F
                     want.icmp6 = Some(h.icmp_type.clone());
                     Fin::I6(b.icmpv6(h.icmp_type))
                 }
+                "du" | "tb" | "te" | "pp" | "rs" | "ra" | "ns" | "na" | "rd" => {
+                    let ty = icmp6_typed(&k);
+                    want.icmp6 = Some(ty.clone());
+                    Fin::I6(b.icmpv6(ty))
+                }
                 _ => panic!("icmp6 token"),
             }
         }
         _ => panic!("transport token"),
+    }
+}
+
+// ---------------------------------------------------------------- typed ICMP kinds
+/// du.<code>.<mtu> | rd.<code>.<gateway hex> | te.<code> | pp.<code>.<pointer> |
+/// tq|tp.<id>.<seq>.<originate>.<receive>.<transmit>
+fn icmp4_typed(k: &[&str]) -> Icmpv4Type {
+    use etherparse::icmpv4::*;
+    match k[0] {
+        "du" => {
+            use DestUnreachableHeader::*;
+            let mtu = num(k[2]) as u16;
+            Icmpv4Type::DestinationUnreachable(match num(k[1]) {
+                0 => Network,
+                1 => Host,
+                2 => Protocol,
+                3 => Port,
+                4 => FragmentationNeeded { next_hop_mtu: mtu },
+                5 => SourceRouteFailed,
+                6 => NetworkUnknown,
+                7 => HostUnknown,
+                8 => Isolated,
+                9 => NetworkProhibited,
+                10 => HostProhibited,
+                11 => TosNetwork,
+                12 => TosHost,
+                13 => FilterProhibited,
+                14 => HostPrecedenceViolation,
+                15 => PrecedenceCutoff,
+                _ => panic!("du code"),
+            })
+        }
+        "rd" => Icmpv4Type::Redirect(RedirectHeader {
+            code: match num(k[1]) {
+                0 => RedirectCode::RedirectForNetwork,
+                1 => RedirectCode::RedirectForHost,
+                2 => RedirectCode::RedirectForTypeOfServiceAndNetwork,
+                3 => RedirectCode::RedirectForTypeOfServiceAndHost,
+                _ => panic!("rd code"),
+            },
+            gateway_internet_address: arr::<4>(k[2]),
+        }),
+        "te" => Icmpv4Type::TimeExceeded(match num(k[1]) {
+            0 => TimeExceededCode::TtlExceededInTransit,
+            1 => TimeExceededCode::FragmentReassemblyTimeExceeded,
+            _ => panic!("te code"),
+        }),
+        "pp" => Icmpv4Type::ParameterProblem(match num(k[1]) {
+            0 => ParameterProblemHeader::PointerIndicatesError(num(k[2]) as u8),
+            1 => ParameterProblemHeader::MissingRequiredOption,
+            2 => ParameterProblemHeader::BadLength,
+            _ => panic!("pp code"),
+        }),
+        "tq" | "tp" => {
+            let m = TimestampMessage {
+                id: num(k[1]) as u16,
+                seq: num(k[2]) as u16,
+                originate_timestamp: num(k[3]) as u32,
+                receive_timestamp: num(k[4]) as u32,
+                transmit_timestamp: num(k[5]) as u32,
+            };
+            if k[0] == "tq" {
+                Icmpv4Type::TimestampRequest(m)
+            } else {
+                Icmpv4Type::TimestampReply(m)
+            }
+        }
+        _ => panic!("icmp4 typed token"),
+    }
+}
+
+/// du.<code> | tb.<mtu> | te.<code> | pp.<code>.<pointer> | rs | ra.<cur hop limit>.<m>.<o>.<lifetime> |
+/// ns | na.<r>.<s>.<o> | rd
+fn icmp6_typed(k: &[&str]) -> Icmpv6Type {
+    use etherparse::icmpv6::*;
+    match k[0] {
+        "du" => Icmpv6Type::DestinationUnreachable(match num(k[1]) {
+            0 => DestUnreachableCode::NoRoute,
+            1 => DestUnreachableCode::Prohibited,
+            2 => DestUnreachableCode::BeyondScope,
+            3 => DestUnreachableCode::Address,
+            4 => DestUnreachableCode::Port,
+            5 => DestUnreachableCode::SourceAddressFailedPolicy,
+            6 => DestUnreachableCode::RejectRoute,
+            _ => panic!("du6 code"),
+        }),
+        "tb" => Icmpv6Type::PacketTooBig { mtu: num(k[1]) as u32 },
+        "te" => Icmpv6Type::TimeExceeded(match num(k[1]) {
+            0 => TimeExceededCode::HopLimitExceeded,
+            1 => TimeExceededCode::FragmentReassemblyTimeExceeded,
+            _ => panic!("te6 code"),
+        }),
+        "pp" => Icmpv6Type::ParameterProblem(ParameterProblemHeader {
+            code: match num(k[1]) {
+                0 => ParameterProblemCode::ErroneousHeaderField,
+                1 => ParameterProblemCode::UnrecognizedNextHeader,
+                2 => ParameterProblemCode::UnrecognizedIpv6Option,
+                3 => ParameterProblemCode::Ipv6FirstFragmentIncompleteHeaderChain,
+                4 => ParameterProblemCode::SrUpperLayerHeaderError,
+                5 => ParameterProblemCode::UnrecognizedNextHeaderByIntermediateNode,
+                6 => ParameterProblemCode::ExtensionHeaderTooBig,
+                7 => ParameterProblemCode::ExtensionHeaderChainTooLong,
+                8 => ParameterProblemCode::TooManyExtensionHeaders,
+                9 => ParameterProblemCode::TooManyOptionsInExtensionHeader,
+                10 => ParameterProblemCode::OptionTooBig,
+                _ => panic!("pp6 code"),
+            },
+            pointer: num(k[2]) as u32,
+        }),
+        "rs" => Icmpv6Type::RouterSolicitation,
+        "ra" => Icmpv6Type::RouterAdvertisement(RouterAdvertisementHeader {
+            cur_hop_limit: num(k[1]) as u8,
+            managed_address_config: k[2] == "1",
+            other_config: k[3] == "1",
+            router_lifetime: num(k[4]) as u16,
+        }),
+        "ns" => Icmpv6Type::NeighborSolicitation,
+        "na" => Icmpv6Type::NeighborAdvertisement(NeighborAdvertisementHeader {
+            router: k[1] == "1",
+            solicited: k[2] == "1",
+            r#override: k[3] == "1",
+        }),
+        "rd" => Icmpv6Type::Redirect,
+        _ => panic!("icmp6 typed token"),
     }
 }
 
